@@ -638,7 +638,14 @@ pub fn case(ctx: &Ctx, idx: u64) -> CaseOut {
         let inst = Inst::parse(&input).expect("parse");
         // isolated dry run (own process, so that no process-wide state of earlier solves can leak
         // into it): an instance the pipeline cannot answer at all is C06's business
-        match dry_run(&input, &inst) {
+        let t_dry = Instant::now();
+        let dry = dry_run(&input, &inst);
+        if t_dry.elapsed() > Duration::from_millis(2500) {
+            // a scenario sends every instance dozens of times to a server with 1-4 worker threads
+            out.count("instances_screened_out_as_too_slow_for_a_burst", 1);
+            continue;
+        }
+        match dry {
             None => {
                 out.count("instances_screened_out_by_dry_run", 1);
                 continue;
@@ -757,8 +764,11 @@ pub fn case(ctx: &Ctx, idx: u64) -> CaseOut {
             let soak_events = soak_events.clone();
             let mut r = Rng::new(mix(&[ctx.seed, hash_str("soak"), idx, c as u64]));
             hs.push(std::thread::spawn(move || {
+                // faults are derived from the smallest instance: some of them are solvable and the
+                // soak is about the number of failing requests, not about solve time
+                let smallest = (0..valid.len()).min_by_key(|&i| valid[i].body.len()).unwrap_or(0);
                 for seq in 0..per_thread {
-                    let v = r.usize(0, valid.len() - 1);
+                    let v = if r.chance(3, 4) { smallest } else { r.usize(0, valid.len() - 1) };
                     let kind = match r.below(14) {
                         0 => Kind::DanglingReference(v),
                         1 => Kind::BadTimestamp(v),
@@ -815,6 +825,14 @@ pub fn case(ctx: &Ctx, idx: u64) -> CaseOut {
         );
     }
     let soak_hist = soak_events.lock().unwrap().clone();
+    if std::env::var("VERIF_HTTP_TRACE").is_ok() {
+        for e in history.lock().unwrap().iter().chain(soak_hist.iter()).chain(probes.iter()) {
+            let ms = (e.ret_ns - e.call_ns) / 1_000_000;
+            if ms > 3000 {
+                eprintln!("slow request: client {} seq {} {} took {} ms -> {:?}", e.client, e.seq, e.kind.name(), ms, match &e.outcome { Outcome::Response { status, .. } => format!("status {}", status), Outcome::Closed(w) => w.clone() });
+            }
+        }
+    }
     if soak {
         out.count("soak_scenarios", 1);
     }
